@@ -19,7 +19,7 @@ Definition astate_eqb (x y : astate) : bool :=
 
 (** one s4u::Activity.  [a_deps] = dependencies_ (a std::set), [a_succs] = successors_ (a vector, push_back = append),
     [a_assigned] = is_assigned().  The last five fields are ghosts used by the statements: dates of do_start, of
-    complete(FINISHED), of the first assignment, of the first explicit start request, and the set of declared (and not
+    complete(FINISHED), of the latest assignment, of the latest explicit start request, and the set of declared (and not
     removed) predecessors, which — unlike dependencies_ — is not emptied when predecessors complete. *)
 Record act := mkAct {
   a_kind : kind; a_state : astate; a_deps : list nat; a_succs : list nat; a_assigned : bool; a_dur : Z;
@@ -33,11 +33,10 @@ Definition set_succs (x : act) (v : list nat) :=
   mkAct (a_kind x) (a_state x) (a_deps x) v (a_assigned x) (a_dur x) (a_tstart x) (a_tfinish x) (a_tassign x) (a_treq x) (a_gpreds x).
 Definition set_gpreds (x : act) (v : list nat) :=
   mkAct (a_kind x) (a_state x) (a_deps x) (a_succs x) (a_assigned x) (a_dur x) (a_tstart x) (a_tfinish x) (a_tassign x) (a_treq x) v.
-Definition first_date (o : option Z) (t : Z) : option Z := match o with Some _ => o | None => Some t end.
 Definition set_assigned (x : act) (t : Z) :=
-  mkAct (a_kind x) (a_state x) (a_deps x) (a_succs x) true (a_dur x) (a_tstart x) (a_tfinish x) (first_date (a_tassign x) t) (a_treq x) (a_gpreds x).
+  mkAct (a_kind x) (a_state x) (a_deps x) (a_succs x) true (a_dur x) (a_tstart x) (a_tfinish x) (Some t) (a_treq x) (a_gpreds x).
 Definition set_req (x : act) (t : Z) :=
-  mkAct (a_kind x) (a_state x) (a_deps x) (a_succs x) (a_assigned x) (a_dur x) (a_tstart x) (a_tfinish x) (a_tassign x) (first_date (a_treq x) t) (a_gpreds x).
+  mkAct (a_kind x) (a_state x) (a_deps x) (a_succs x) (a_assigned x) (a_dur x) (a_tstart x) (a_tfinish x) (a_tassign x) (Some t) (a_gpreds x).
 Definition set_started (x : act) (t : Z) :=
   mkAct (a_kind x) STARTED (a_deps x) (a_succs x) (a_assigned x) (a_dur x) (Some t) (a_tfinish x) (a_tassign x) (a_treq x) (a_gpreds x).
 Definition set_finished (x : act) (t : Z) :=
@@ -108,13 +107,23 @@ Fixpoint next_ev (f : nat -> act) (ids : list nat) : option (nat * Z) :=
               | None, x => x
               end
   end.
-Definition within (lim : option Z) (d : Z) : bool := match lim with None => true | Some t => d <=? t end.
 Definition set_now (s : st) (t : Z) : st := mkSt (acts s) (nacts s) t (trace s).
+Definition due (t : Z) (x : act) : bool := match fin_date x with Some d => d <=? t | None => false end.
+(** run_until(t) stops as soon as the clock reaches t: the model actions that end at t are all handled (one call of
+    handle_ended_actions), but what those completions start at date t — even with a zero duration — waits for the next
+    call of run()/run_until() *)
+Definition batch (s : st) (t : Z) : st :=
+  fold_left complete (filter (fun i => due t (acts s i)) (seq 0 (nacts s))) (set_now s (Z.max (now s) t)).
 Fixpoint drain (fuel : nat) (lim : option Z) (s : st) : st :=
   match fuel with
   | O => s
   | S f => match next_ev (acts s) (seq 0 (nacts s)) with
-           | Some (a, d) => if within lim d then drain f lim (complete (set_now s (Z.max (now s) d)) a) else s
+           | Some (a, d) =>
+               match lim with
+               | None => drain f lim (complete (set_now s (Z.max (now s) d)) a)
+               | Some t => if d <? t then drain f lim (complete (set_now s (Z.max (now s) d)) a)
+                           else if d =? t then batch s t else s
+               end
            | None => s
            end
   end.
